@@ -458,6 +458,14 @@ def appropriate(ctx, tm):
         r.check("C02.5", ok, "appropriate::%s" % short(s), "%s:%d" % (REL, expr.lineno),
                 "the appropriate-end-tag test of %s is `%s`: it must require a current token and compare its name with the "
                 "temporary buffer ASCII case-insensitively (%s)" % (short(s), t, why), detail={"state": short(s)})
+        # the last start tag's name is compared as emitted: folding it with str.lower() also folds non-ASCII cased letters
+        # (U+212A KELVIN SIGN -> k), which the standard's "matches the tag name of the last start tag" does not
+        if ok:
+            name_side = l if base(l) == "self.currentToken['name']" else rr
+            r.check("C02.5", not name_side.endswith(".lower()"), "appropriate-ascii-fold::%s" % short(s), "%s:%d" % (REL, expr.lineno),
+                    "%s folds the last start tag's name with str.lower(): with last start tag `a\u212a` (KELVIN SIGN, a legal tag-name "
+                    "character) the input `</ak>` is taken for the appropriate end tag although `ak` != `a\u212a`" % short(s),
+                    detail={"state": short(s)})
 
 
 def cdata_terminator(ctx, tm):
@@ -610,8 +618,10 @@ def mutants():
         T("doctype-keyword-letter", REL, "for expected in (('o', 'O'), ('c', 'C'), ('t', 'T'),", "for expected in (('o', 'O'), ('c', 'C'), ('t', 't'),", "C02.4"),
         T("cdata-case-insensitive", REL, "                if charStack[-1] != expected:\n                    matched = False\n                    break\n            if matched:\n                self.state = self.cdataSectionState",
           "                if charStack[-1].upper() != expected:\n                    matched = False\n                    break\n            if matched:\n                self.state = self.cdataSectionState", "C02"),
-        T("case-sensitive-endtag", REL, "    def rawtextEndTagNameState(self):\n        appropriate = self.currentToken and self.currentToken[\"name\"].lower() == self.temporaryBuffer.lower()",
+        T("case-sensitive-endtag", REL, "    def rawtextEndTagNameState(self):\n        appropriate = (self.currentToken and\n                       self.currentToken[\"name\"].translate(asciiUpper2Lower) ==\n                       self.temporaryBuffer.translate(asciiUpper2Lower))",
           "    def rawtextEndTagNameState(self):\n        appropriate = self.currentToken and self.currentToken[\"name\"] == self.temporaryBuffer", "C02.5"),
+        T("appropriate-unicode-fold", REL, "    def rcdataEndTagNameState(self):\n        appropriate = (self.currentToken and\n                       self.currentToken[\"name\"].translate(asciiUpper2Lower) ==\n                       self.temporaryBuffer.translate(asciiUpper2Lower))",
+          "    def rcdataEndTagNameState(self):\n        appropriate = self.currentToken and self.currentToken[\"name\"].lower() == self.temporaryBuffer.lower()", "C02.5"),
         T("last-wins", REL, "                    data.update(raw[::-1])", "                    data.update(raw)", "C02.6"),
         T("no-tagname-lower", REL, "            token[\"name\"] = token[\"name\"].translate(asciiUpper2Lower)\n            if token[\"type\"] == tokenTypes[\"StartTag\"]:",
           "            if token[\"type\"] == tokenTypes[\"StartTag\"]:", "C02.6"),
